@@ -30,6 +30,11 @@ fn expand_optimizable_while_loop(
     dead_code_elimination::collect_use_from_expression(&v.loop_value, &mut useful_used_set);
   }
   dead_code_elimination::collect_use_from_stmts(&statements, &mut useful_used_set);
+  // Derived induction variables that strength reduction could not turn into basic ones are
+  // recomputed from their base variable at the end of the loop body, so the base must stay.
+  for v in &derived_induction_variables {
+    useful_used_set.insert(v.base_name);
+  }
   let general_basic_induction_variables_with_loop_value_collectors = general_induction_variables
     .into_iter()
     .filter(|v| useful_used_set.contains(&v.name))
